@@ -37,6 +37,19 @@ static char *lookup(const char *str, int sep)
 	}
 	return g.text;
 }
+/* the same question as a typed query: config::get<const char *>(path, destination); see j_item_typed */
+static int lookup_typed(const char *str, int sep, char **text)
+{
+	static const char marker[] = "<untouched>";
+	mpt::path p(str, sep, 0);
+	const char *val = marker;
+	*text = 0;
+	if (!conf->get(p, val)) return -1;
+	if (val == marker) return -2;
+	if (!val) return -3;
+	*text = copy_text(val, (size_t) -1);
+	return 0;
+}
 /* the same question through config::get with a text target (diagnostic) */
 static int lookup_s(const char *str, int sep)
 {
@@ -65,6 +78,14 @@ static void emit_store(struct cmd *c, const char *ret, const char *retval, int i
 	}
 	j_arr_close();
 	j_arr_open("rel");
+	j_arr_close();
+	j_arr_open("typed");
+	for (i = 0; i < nuni; i++) {
+		char *t = 0;
+		int code = lookup_typed(uni[i], usep, &t);
+		j_item_typed(code, t);
+		free(t);
+	}
 	j_arr_close();
 	drv_dbg();
 	j_int("present", present);
